@@ -25,7 +25,12 @@ func main() {
 	explain := flag.String("explain", "", "replay: print the obligations named in this violations file verbosely")
 	noEvidence := flag.Bool("no-evidence", false, "do not write evidence (used for self-validation runs on variants)")
 	list := flag.Bool("list", false, "print the registered property checks as JSON")
+	variants := flag.Bool("variants", false, "development aid: treat the remaining arguments as patch files, apply each to a copy of -repo and run every property on it")
 	flag.Parse()
+	if *variants {
+		props.Variants(*repo, flag.Args(), *verbose)
+		return
+	}
 	if *list {
 		props.PrintList()
 		return
